@@ -8,7 +8,7 @@
    Content-Length model of C03, to the same start line, the same Headers value and the same body. *)
 From Coq Require Import List Arith NArith Bool.
 From Coq.Strings Require Import Byte.
-From EZK Require Import Gen.Tables Lib.Bytes Lib.Num Lib.Utf8 Model.C01 Proofs.C01 Model.C03 Model.C01m Proofs.C01m.
+From EZK Require Import Gen.Tables Lib.Bytes Lib.Num Lib.Utf8 Model.C01 Proofs.C01 Model.C03 Model.C01m Proofs.C01m Model.C01n Proofs.C01n.
 Import ListNotations.
 Close Scope N_scope.
 Open Scope nat_scope.
@@ -88,6 +88,20 @@ Example C01_example_uri :
                  [mkparam (B"a;b") (Some (B"x=y?")); mkparam (B"lr") None] [mkparam (B"subject") (Some (B"a b&c%"))] in
   print_uri_all u = B"sips:a%2541b@example.org:5060;a%3Bb=x%3Dy%3F;lr?subject=a%20b%26c%25" /\
   parse_uri (fun s => Some 11) (print_uri_all u) = Some (u, []).
+Proof. split; vm_compute; reflexivity. Qed.
+
+(* display names of From / To / Contact / Route values: every byte string put between quotes by the printer is read
+   back unchanged by parse_quoted_string, whatever follows the closing quote; without the escaping a name that
+   contains a quote is not *)
+Theorem C01_display_name_roundtrip : forall name rest, parse_display (print_display name ++ rest) = Some (name, rest).
+Proof. intros. apply display_roundtrip. reflexivity. Qed.
+
+Theorem C01_display_unescaped_refuted : exists name, unquote (name ++ [dq]) <> Some (name, []).
+Proof. exact display_unescaped_refuted. Qed.
+
+Example C01_example_display :
+  print_display (B"a" ++ [dq] ++ B"b" ++ [bs]) = [dq] ++ B"a" ++ [bs; dq] ++ B"b" ++ [bs; bs] ++ [dq] /\
+  parse_display (print_display (B"a" ++ [dq] ++ B"b" ++ [bs]) ++ B" <sip:x>") = Some (B"a" ++ [dq] ++ B"b" ++ [bs], B" <sip:x>").
 Proof. split; vm_compute; reflexivity. Qed.
 
 (* ---------- whole messages ---------- *)
